@@ -42,6 +42,31 @@ def vec_queries(Query, ops, cfgs, timeout=300, unwind=14):
                             bounds=dict(N=d['VF_N'], size_max=d.get('VF_CMAX', d['VF_N'] + 3), capacity_max=d.get('VF_CMAX', d['VF_N'] + 3), count_max=3, values='8-bit')))
     return qs
 
+FS_OPS = ['insert', 'emplace', 'insert_hint', 'erase_key', 'erase_pos', 'erase_range', 'clear', 'lookup', 'insert_node', 'extract',
+          'merge_same', 'swap', 'copy_move', 'compare']
+FS_OPS_SORT = ['insert_range', 'from_vector', 'ctor_range']     # bulk paths through std::sort / std::inplace_merge
+
+def fs_cfg(vec=0, n=2, cmp=2, d=0, sh=0, cls=2, keys=8, mx=4, stub=False):
+    c = {'FS_VEC': vec, 'FS_N': n, 'FS_CMP': cmp, 'FS_DIR': d, 'FS_SHIFT': sh, 'FS_CLS': cls, 'FS_KEYS': keys, 'FS_MAX': mx}
+    if stub: c['FS_STUBSORT'] = ''
+    return c
+
+def fs_name(c):
+    v = {0: 'vec', 1: 'sv%d' % c['FS_N'], 2: 'fcv%d' % c['FS_N']}[c['FS_VEC']]
+    cm = {0: 'less', 1: 'greater', 2: 'st%d%d' % (c['FS_DIR'], c['FS_SHIFT']), 3: 'transp'}[c['FS_CMP']]
+    return '%s_%s_%s_k%d_m%d%s' % (v, cm, 'IHA'[c['FS_CLS']], c['FS_KEYS'], c['FS_MAX'], '_stub' if 'FS_STUBSORT' in c else '')
+
+def fs_queries(Query, ops, cfgs, timeout=400, unwind=12):
+    qs = []
+    for c in cfgs:
+        for op in ops:
+            if op == 'lookup_transparent' and c['FS_CMP'] != 3: continue
+            qs.append(Query('fs_%s.%s' % (op, fs_name(c)), 'flatset_ops.cpp', 'h_' + op, defs=c, arena=(4, 16), unwind=unwind, timeout=timeout,
+                            symbolic='underlying vector state class, sorted content (keys), key / hint / range contents, node presence',
+                            bounds=dict(elements_max=c['FS_MAX'], key_domain=c['FS_KEYS'], range_max=3, comparator=fs_name(c).split('_')[1],
+                                        sort_and_inplace_merge='contract stub (stable insertion sort)' if 'FS_STUBSORT' in c else 'real libstdc++')))
+    return qs
+
 ALL_OPS = VEC_OPS_UNARY + VEC_OPS_CTOR + VEC_OPS_BINARY
 
 def plan(pid, tier, Query):
@@ -51,6 +76,10 @@ def plan(pid, tier, Query):
                 'survey2': [vec_cfg(0, 0, 'B'), vec_cfg(2, 3, 'R'), vec_cfg(1, 3, 'R', ak=0), vec_cfg(0, 0, 'X', ak=1)],
                 'survey3': [vec_cfg(1, 4, 'W', ak=1, s='uint16_t'), vec_cfg(1, 3, 'T3', ak=2, s='int8_t'), vec_cfg(2, 3, 'X')]}[tier]
         return vec_queries(Query, ALL_OPS, cfgs, timeout=600)
+    if tier == 'fsurvey':
+        return (fs_queries(Query, FS_OPS, [fs_cfg(0, cmp=2, d=1, sh=1), fs_cfg(1, cmp=0), fs_cfg(2, n=6, cmp=3)] ) +
+                fs_queries(Query, ['lookup_transparent'], [fs_cfg(2, n=6, cmp=3)]) +
+                fs_queries(Query, FS_OPS_SORT, [fs_cfg(0, cmp=2, d=1, sh=1, stub=True), fs_cfg(1, cmp=0, stub=True), fs_cfg(1, cmp=0, mx=2)]))
     if pid in ('C01', 'C02', 'C05', 'C06', 'C07'):
         cfgs = [vec_cfg(1, 2, 'B')]
         return vec_queries(Query, ALL_OPS, cfgs)
